@@ -1,5 +1,5 @@
 (* driver.ml (C03/C04) — line protocol for the bft oracle; no logic of its own.
-   RUN guard L mbp pos total | signer weight .. | genesis: id parent signer com score | master .. | ev ; ev ; ..
+   RUN guard L mbp pos total [finality] | signer weight .. | genesis: id parent signer com score | master .. | ev ; ev ; ..
        ev = I node id parent signer com score | P node id parent signer com score | R node
      -> one observation per event, separated by ';':  code pre best finalized justified vote quality justified? committed?
    JUS pq tv tw | signer com weight ..   -> quality justified committed #votes comVotes comWeight justifiedWeight
@@ -33,12 +33,13 @@ let event_of = function
 
 let handle line =
   match split_on "|" (split_ws line) with
-  | [ ["RUN"; guard; l; mbp; pos; total]; ws; gen; masters; evs ] ->
+  | [ "RUN" :: guard :: l :: mbp :: pos :: total :: fin; ws; gen; masters; evs ] ->
+    let f = (match fin with [] -> n_of_hex "0" | [x] -> n_of_hex x | _ -> failwith "bad RUN header") in
     let c = { c_L = n_of_hex l; c_mbp = n_of_hex mbp; c_pos = bool_of_tok pos; c_total = n_of_hex total; c_w = pairs ws } in
     let g = blk_of gen in
     let w = List.map (fun m -> init_node g (n_of_hex m)) masters in
     let evs = List.filter (fun e -> e <> []) (split_on ";" evs) in
-    let (_, os) = run (bool_of_tok guard) c w (List.map event_of evs) in
+    let (_, os) = run_f f (bool_of_tok guard) c w (List.map event_of evs) in
     String.concat " ; " (List.map show_obs os)
   | [ ["JUS"; pq; tv; tw]; votes ] ->
     let js = tally_votes (n_of_hex pq) (n_of_hex tv) (n_of_hex tw) (triples votes) in
